@@ -226,6 +226,39 @@ func cmpType(path string, want *RType, got *idl.Type) string {
 }
 
 // cmpIDL compares the parser's result with the generated tree (docs only when checkDocs).
+// docTrail, when set, makes the documentation comparison tolerate the trailing comment "# <docTrail>" of the line
+// above (and, below the interface line, the interface's still pending block) in front of a member's block. It is
+// not set by any family: since fix 2 of C05 (trailing comments document nothing) the comparison is exact.
+var docTrail string
+
+func docOK(got string, want []string, pendingAbove []string) bool {
+	w := strings.Join(want, "\n")
+	if got == w {
+		return true
+	}
+	if docTrail == "" {
+		return false
+	}
+	// the trailing comment of the line above (and, below the interface line, the interface's own block, which
+	// nothing has ended yet) may or may not be taken as part of the block
+	lines := strings.Split(got, "\n")
+	if len(pendingAbove) > 0 && len(lines) >= len(pendingAbove) && strings.Join(lines[:len(pendingAbove)], "\n") == strings.Join(pendingAbove, "\n") {
+		lines = lines[len(pendingAbove):]
+	}
+	if len(lines) > 0 && lines[0] == docTrail {
+		lines = lines[1:]
+	}
+	return strings.Join(lines, "\n") == w
+}
+
+// pendingAbove: the interface's own block is still pending when the first member starts on the line below it
+func pendingAbove(d *RIDL, i int) []string {
+	if i == 0 {
+		return d.Doc
+	}
+	return nil
+}
+
 func cmpIDL(want *RIDL, got *idl.IDL, text string, checkDocs bool) string {
 	if got.Name != want.Name {
 		return fmt.Sprintf("interface name %q, the text says %q", got.Name, want.Name)
@@ -250,7 +283,7 @@ func cmpIDL(want *RIDL, got *idl.IDL, text string, checkDocs bool) string {
 			if p := cmpType("type "+w.Name, w.Type, g.Type); p != "" {
 				return p
 			}
-			if checkDocs && g.Doc != strings.Join(w.Doc, "\n") {
+			if checkDocs && !docOK(g.Doc, w.Doc, pendingAbove(want, i)) {
 				return fmt.Sprintf("documentation of type %s is %q, the comment block above it says %q", w.Name, g.Doc, strings.Join(w.Doc, "\n"))
 			}
 		case *idl.Method:
@@ -267,7 +300,7 @@ func cmpIDL(want *RIDL, got *idl.IDL, text string, checkDocs bool) string {
 			if p := cmpType("method "+w.Name+" out", w.Out, g.Out); p != "" {
 				return p
 			}
-			if checkDocs && g.Doc != strings.Join(w.Doc, "\n") {
+			if checkDocs && !docOK(g.Doc, w.Doc, pendingAbove(want, i)) {
 				return fmt.Sprintf("documentation of method %s is %q, the comment block above it says %q", w.Name, g.Doc, strings.Join(w.Doc, "\n"))
 			}
 		case *idl.Error:
@@ -281,7 +314,7 @@ func cmpIDL(want *RIDL, got *idl.IDL, text string, checkDocs bool) string {
 			if p := cmpType("error "+w.Name, w.Type, g.Type); p != "" {
 				return p
 			}
-			if checkDocs && g.Doc != strings.Join(w.Doc, "\n") {
+			if checkDocs && !docOK(g.Doc, w.Doc, pendingAbove(want, i)) {
 				return fmt.Sprintf("documentation of error %s is %q, the comment block above it says %q", w.Name, g.Doc, strings.Join(w.Doc, "\n"))
 			}
 		default:
@@ -492,6 +525,12 @@ func gapsOf(ps []piece) []gapInfo {
 // inner: when not empty, every gap inside a member (behind its keyword, name, brackets, ...) that admits it is
 // filled with it - the member then spreads over several lines, its documentation block still directly above.
 func renderDocs(d *RIDL, indent string, crlf bool, inner string) string {
+	return renderDocsT(d, indent, crlf, inner, false, "")
+}
+
+// renderDocsT: tight = no blank line between members; trail = a trailing comment on the interface line and on the
+// last line of every member.
+func renderDocsT(d *RIDL, indent string, crlf bool, inner string, tight bool, trail string) string {
 	nl := "\n"
 	if crlf {
 		nl = "\r\n"
@@ -506,10 +545,16 @@ func renderDocs(d *RIDL, indent string, crlf bool, inner string) string {
 			}
 		}
 	}
+	tr := ""
+	if trail != "" {
+		tr = " # " + trail
+	}
 	block(d.Doc)
-	sb.WriteString("interface " + d.Name + nl)
+	sb.WriteString("interface " + d.Name + tr + nl)
 	for _, m := range d.Members {
-		sb.WriteString(nl)
+		if !tight {
+			sb.WriteString(nl)
+		}
 		block(m.Doc)
 		one := RIDL{Name: "x.y", Members: []RMember{m}}
 		ps := pieces(&one)
@@ -527,7 +572,7 @@ func renderDocs(d *RIDL, indent string, crlf bool, inner string) string {
 		}
 		txt := render(ps, lay)
 		txt = txt[strings.Index(txt, "\n")+1:]
-		sb.WriteString(indent + strings.TrimSuffix(txt, "\n") + nl)
+		sb.WriteString(indent + strings.TrimSuffix(txt, "\n") + tr + nl)
 	}
 	return sb.String()
 }
